@@ -90,6 +90,9 @@ impl Db {
         Db { conn, counter }
     }
 
+    /// a connection without any of the user functions (what a stock SQLite offers)
+    pub fn from_conn(conn: Connection) -> Db { Db { conn, counter: Arc::new(AtomicU64::new(0)) } }
+
     pub fn random_calls(&self) -> u64 { self.counter.load(Ordering::Relaxed) }
 
     pub fn create_table(&self, name: &str, cols: &[&str], rows: &[Vec<Cell>]) {
